@@ -1,11 +1,11 @@
 package main
 
 import (
-	"os/exec"
 	"encoding/json"
 	"fmt"
 	"math/rand"
 	"os"
+	"os/exec"
 	"path/filepath"
 	"regexp"
 	"sort"
@@ -54,10 +54,10 @@ func writeEvidence(ev *Evidence) {
 // KnownFinding is an entry of /verif/known_findings.json.
 type KnownFinding struct {
 	Property string `json:"property"`
-	Status   string `json:"status"` // "known" or "fixed"
-	Conv     string `json:"conv,omitempty"`    // regexp on the conv id / harness case
-	Kind     string `json:"kind,omitempty"`    // finding kind
-	Note     string `json:"note,omitempty"`    // regexp on the note
+	Status   string `json:"status"`         // "known" or "fixed"
+	Conv     string `json:"conv,omitempty"` // regexp on the conv id / harness case
+	Kind     string `json:"kind,omitempty"` // finding kind
+	Note     string `json:"note,omitempty"` // regexp on the note
 	What     string `json:"what"`
 	Commit   string `json:"commit,omitempty"`
 }
@@ -119,13 +119,13 @@ func runProperty(opt *Options) int {
 
 // lbRun is the common skeleton of Layer B properties.
 type lbRun struct {
-	Opt     *Options
-	Convs   []*layerb.Conv
-	Check   layerb.CheckFn
-	EOpt    layerb.ExploreOpt
-	Bounds  layerb.Bounds
-	Assume  []string
-	Rule    string
+	Opt       *Options
+	Convs     []*layerb.Conv
+	Check     layerb.CheckFn
+	EOpt      layerb.ExploreOpt
+	Bounds    layerb.Bounds
+	Assume    []string
+	Rule      string
 	noExplore bool
 	// NoEvidence: finish() only prints and keeps the coverage map in LastCov (the property's evidence
 	// is written by its kernel runner)
@@ -412,35 +412,35 @@ func (lr *lbRun) finish(res *lbResult, level string, extra map[string]interface{
 		fmt.Printf("INCONCLUSIVE: %d obligations undecided by all solvers\n", inconclusive)
 	}
 	cov := map[string]interface{}{
-		"programs":              programs,
-		"disagreements_checked": len(viols) + len(knownHits),
-		"native_replays":        replayed,
-		"native_replays_reproduced": reproduced,
-		"spurious_counterexamples":  spurious,
-		"traces_validated_against_impl": tvOK,
-		"translator_validation_failures": tvBad,
-		"samples":               samples,
-		"evaluations":           paths,
-		"distinct_nontrivial":   distinct,
-		"rule":                  lr.Rule,
-		"paths":                 paths,
-		"obligations":           obligations,
-		"discharged":            discharged,
-		"functions_encoded":     "every function emitted by goverter for the corpus programs (files written by the goverter binary built from the working tree), inlined; callees outside emitted files are stubs",
-		"bounds":                lr.Bounds,
-		"queries": map[string]int{"total": res.Stats.Queries, "sat": res.Stats.Sat, "unsat": res.Stats.Unsat, "unknown": res.Stats.Unknown, "solver_errors": res.Stats.SolverErrors},
-		"solver_time_s":   res.Stats.SolverTime.Seconds(),
-		"ssa_steps":       res.Stats.Steps,
-		"truncated_paths": res.Stats.Truncated,
-		"unwind_failures": res.Stats.UnwindFail,
-		"unsupported":     res.Stats.UnsupportedList(),
-		"inconclusive_obligations": inconclusive,
-		"known_findings":  kh,
-		"skipped":         skipped,
-		"goverter_runs":   res.Corpus.Runs,
+		"programs":                             programs,
+		"disagreements_checked":                len(viols) + len(knownHits),
+		"native_replays":                       replayed,
+		"native_replays_reproduced":            reproduced,
+		"spurious_counterexamples":             spurious,
+		"traces_validated_against_impl":        tvOK,
+		"translator_validation_failures":       tvBad,
+		"samples":                              samples,
+		"evaluations":                          paths,
+		"distinct_nontrivial":                  distinct,
+		"rule":                                 lr.Rule,
+		"paths":                                paths,
+		"obligations":                          obligations,
+		"discharged":                           discharged,
+		"functions_encoded":                    "every function emitted by goverter for the corpus programs (files written by the goverter binary built from the working tree), inlined; callees outside emitted files are stubs",
+		"bounds":                               lr.Bounds,
+		"queries":                              map[string]int{"total": res.Stats.Queries, "sat": res.Stats.Sat, "unsat": res.Stats.Unsat, "unknown": res.Stats.Unknown, "solver_errors": res.Stats.SolverErrors},
+		"solver_time_s":                        res.Stats.SolverTime.Seconds(),
+		"ssa_steps":                            res.Stats.Steps,
+		"truncated_paths":                      res.Stats.Truncated,
+		"unwind_failures":                      res.Stats.UnwindFail,
+		"unsupported":                          res.Stats.UnsupportedList(),
+		"inconclusive_obligations":             inconclusive,
+		"known_findings":                       kh,
+		"skipped":                              skipped,
+		"goverter_runs":                        res.Corpus.Runs,
 		"generation_rejected_expected_success": len(res.GenFail),
 		"generation_accepted_expected_failure": len(res.GenUnexp),
-		"solver": "z3 4.8.12 (one z3 -in per worker, push/pop); unknown => z3-new, cvc5",
+		"solver":                               "z3 4.8.12 (one z3 -in per worker, push/pop); unknown => z3-new, cvc5",
 	}
 	for k, v := range extra {
 		cov[k] = v
@@ -473,7 +473,6 @@ func clearReplaysOnce(prop string) {
 	replaysCleared[prop] = true
 	os.RemoveAll(filepath.Join(layera.Root(), "replays", prop))
 }
-
 
 func firstLine(s string) string {
 	s = strings.TrimSpace(s)
